@@ -427,14 +427,16 @@ func (m ReplaceMap) createFlat() MapStorage {
 
 func (v Map) Merge(other Map) (Map, error) {
 	var exists string
+	found := false
 	other.Iter(func(key string, val Value) bool {
 		if _, ok := v.Get(key); ok {
 			exists = key
+			found = true
 			return false
 		}
 		return true
 	})
-	if exists != "" {
+	if found {
 		return EmptyMap, fmt.Errorf("first map already contains key '%s'", exists)
 	}
 	return Map{MergeMap{a: v.m, b: other.m}}, nil
